@@ -19,6 +19,7 @@ META = {
                     "C02 contract on bin1d_vec installed underneath"],
     "deciding": ["post:spatial_magnitude_counts", "post:spatial_counts", "post:magnitude_counts", "identity:marginals", "reject:out-of-range", "history:rebind-region"],
 }
+META["added"] = "Added: events in holes / flagged-out cells as the outside event, quadtree grids from shuffled and coarse-first listings and the grid's north edge, region re-binding and in-place re-ordering histories on one catalog object, a competing region-bound magnitude grid next to an explicit mag_bins, magnitude grids built with numpy.arange / start+k*step / linspace (round-off edges) with events on the nominal decimal edges."
 MANIFEST = {
     "technique": "runtime post-conditions (conservation, immutability) on the real catalog gridding methods at every call + brute-force reference gridding on generated catalogs incl. hostile out-of-range mixes; marginal identities and filter-equivalence checked per case",
     "level_text": "Each generated catalog/region pair is gridded by the real methods; the count array is compared entry by entry with a brute-force reference, totals and both marginals are exact integer identities, occupancy equals [count>0], each magnitude bin equals the size of the equivalent magnitude-range filter, and catalogs containing events outside the region or below the first magnitude edge must be rejected (space-magnitude) or left uncounted (magnitude histogram). Every call of the four gridding methods is also checked for conservation and for not mutating the catalog.",
